@@ -154,6 +154,29 @@ class PList:
         return f"PList({self.items})"
 
 
+class PSel:
+    """a list-valued variable that is one of several PList objects depending on conditions (first matching case wins)"""
+
+    def __init__(self, cases):
+        flat = []
+        for c, l in cases:
+            if isinstance(l, PSel):
+                for c2, l2 in l.cases:
+                    flat.append((and_(c, c2), l2))
+            else:
+                flat.append((c, l))
+        self.cases = flat
+
+    def exclusive(self):
+        """cases with mutually exclusive conditions"""
+        out = []
+        prev = []
+        for c, l in self.cases:
+            out.append((and_(c, *[not_(p) for p in prev]), l))
+            prev.append(c)
+        return out
+
+
 class FuncRef:
     def __init__(self, name, node, module):
         self.name, self.node, self.module = name, node, module
@@ -762,6 +785,10 @@ class Run:
             if new is old:
                 return new
             return Arr(new.shape, [ite(g, a, b) for a, b in zip(new.data, old.data)], new.dtype)
+        if isinstance(new, (PList, PSel)) and isinstance(old, (PList, PSel)):
+            if new is old:
+                return new
+            return PSel([(g, new), (True, old)])
         if isinstance(new, (Arr, PList, FuncRef)) or isinstance(old, (Arr, PList, FuncRef)):
             if new is old:
                 return new
@@ -994,6 +1021,15 @@ class Run:
                    or_(lt(i, 0), ge(i, dim)), node, g)
 
     def read_index(self, base, idx, node, g):
+        if isinstance(base, PSel):
+            out = None
+            for c, l in reversed(base.exclusive()):
+                gc = and_(g, c)
+                if gc is False:
+                    continue
+                v = self.read_index(l, idx, node, gc)
+                out = v if out is None else self.merge(c, v, out)
+            return UNDEF if out is None else out
         if isinstance(base, PList):
             if len(idx) != 1:
                 raise Unsupported("multi-index on list")
@@ -1014,7 +1050,7 @@ class Run:
             out = None
             for k in range(len(items) - 1, -1, -1):
                 out = items[k][1] if out is None else self.merge(eq(i, k), items[k][1], out)
-            return out
+            return UNDEF if out is None else out
         if isinstance(base, (list, tuple)):
             i = idx[0]
             if is_sym(i):
@@ -1527,6 +1563,12 @@ class Run:
                 return x.shape[0]
             if isinstance(x, PList):
                 return len(x.items) if x.plain() else x.sym_len()
+            if isinstance(x, PSel):
+                out = None
+                for c, l in reversed(x.exclusive()):
+                    v = len(l.items) if l.plain() else l.sym_len()
+                    out = v if out is None else ite(c, v, out)
+                return out
             return len(x)
         if name == "sqrt":
             return self.sqrt(args[0])
@@ -1605,6 +1647,10 @@ class Run:
             if attr == "append":
                 obj.append(args[0], g)
                 return None
+        if isinstance(obj, PSel) and attr == "append":
+            for c, l in obj.exclusive():
+                l.append(args[0], and_(g, c))
+            return None
         raise Unsupported(f"method {attr} on {type(obj).__name__} at {self.mod.where(n)}")
 
 
